@@ -14,18 +14,19 @@ import (
 const allSecbitsNoRoot = _SECURE_NOROOT | _SECURE_NOROOT_LOCKED
 
 type launch struct {
-	k          *kern.Kernel
-	r          *Runner
-	syncCalls  int
-	syncPid    int
-	syncErr    error
-	syncChild  *kern.Proc
-	syncBlocked bool
-	syncExeced bool
-	filter     *syscall.SockFprog
-	execFile   *kern.FileObj
-	cgroupFile *kern.FileObj
-	stdio      [3]*kern.FileObj
+	k              *kern.Kernel
+	r              *Runner
+	syncCalls      int
+	syncPid        int
+	syncErr        error
+	syncChild      *kern.Proc
+	syncBlocked    bool
+	syncExeced     bool
+	syncAckPending bool
+	filter         *syscall.SockFprog
+	execFile       *kern.FileObj
+	cgroupFile     *kern.FileObj
+	stdio          [3]*kern.FileObj
 }
 
 func cstr(s string) *byte {
@@ -35,7 +36,9 @@ func cstr(s string) *byte {
 
 // newLaunch builds a Runner whose every option is a solver variable (within the bounds of
 // the harness) on top of a fresh kernel model with a root host process.
-func newLaunch(withMounts, withRlimits bool) *launch { return newLaunchX(withMounts, withRlimits, false) }
+func newLaunch(withMounts, withRlimits bool) *launch {
+	return newLaunchX(withMounts, withRlimits, false)
+}
 
 // newLaunchX: with bundle=true the orthogonal options (groups, gid map, cgroup fd, exec fd,
 // workdir, host/domain name, pivot root, ctty) are switched on or off together by one
@@ -81,6 +84,7 @@ func newLaunchX(withMounts, withRlimits, bundle bool) *launch {
 				l.syncChild = c
 				l.syncBlocked = c.SyncReadBlocked || c.State != kern.StRunning // waiting for the ack, or already dead
 				l.syncExeced = c.Execed
+				l.syncAckPending = k.AckPending(c)
 			}
 			return l.syncErr
 		}
@@ -118,8 +122,12 @@ func newLaunchX(withMounts, withRlimits, bundle bool) *launch {
 		r.PivotRoot = "/newroot"
 	}
 	if withMounts && sym.Bool("mount") {
-		r.Mounts = []mount.SyscallParams{{Source: cstr("/usr"), Target: cstr("usr"), FsType: cstr(""), Data: cstr(""),
-			Flags: uintptr(syscall.MS_BIND | syscall.MS_NOSUID | syscall.MS_PRIVATE | syscall.MS_REC | syscall.MS_RDONLY), Prefixes: []*byte{cstr("usr")}}}
+		r.Mounts = []mount.SyscallParams{
+			{Source: cstr("/usr"), Target: cstr("usr"), FsType: cstr(""), Data: cstr(""),
+				Flags: uintptr(syscall.MS_BIND | syscall.MS_NOSUID | syscall.MS_PRIVATE | syscall.MS_REC | syscall.MS_RDONLY), Prefixes: []*byte{cstr("usr")}},
+			{Source: cstr("tmpfs"), Target: cstr("a/b/w"), FsType: cstr("tmpfs"), Data: cstr(""),
+				Flags: uintptr(syscall.MS_NOSUID | syscall.MS_NODEV), Prefixes: []*byte{cstr("a"), cstr("a/b"), cstr("a/b/w")}},
+		}
 	}
 	if withRlimits && sym.Bool("rlimit") {
 		r.RLimits = []rlimit.RLimit{{Res: syscall.RLIMIT_CPU, Rlim: syscall.Rlimit{Cur: 1, Max: 2}}, {Res: syscall.RLIMIT_NOFILE, Rlim: syscall.Rlimit{Cur: 16, Max: 16}}}
@@ -255,5 +263,6 @@ func c04Options(bundle bool, part int) {
 		sym.Assert(l.syncCalls == 1, "the sync callback must run exactly once")
 		sym.Assert(l.syncPid == pid, "the sync callback must get the child's pid")
 		sym.Assert(l.syncBlocked && !l.syncExeced, "the sync callback must run while the child waits and before exec")
+		sym.Assert(!l.syncAckPending, "the acknowledgement was sent to the child before the sync callback ran")
 	}
 }
